@@ -2,6 +2,7 @@
 pub mod dirx;
 pub mod engine;
 pub mod forge;
+pub mod fuzz;
 pub mod gen;
 pub mod model;
 pub mod props;
